@@ -309,6 +309,16 @@ func vHostileJSON(tp *verifsim.Tape, raw []byte) []byte {
 		return []byte(`{"x":`)
 	}
 	keys := vSortedKeys(m)
+	if _, isCfg := m["escape_chars"]; (isCfg || m["bufsize"] != nil) && tp.Bool("h.esctable", 450) {
+		// the announced escape table is a structure of its own: entries of the wrong arity, length or type
+		shapes := []string{`[["~",""]]`, `[["",""]]`, `[["~"]]`, `[[]]`, `[["~","\u00ee"]]`, `[["~","\u00ee\u00ee\u00ee"]]`, `[[1,2]]`, `"table"`, `[["ab","\u00eec"]]`, `[null]`, `[["~",null]]`,
+			`[["~","\u00ee1"],["~","\u00ee2"]]`, `[["\u00ee","\u00ee1"],["~","\u00ee1"]]`, `[["~","x1"]]`, `[["~","\u00ee1","extra"]]`, `{}`, `[["\ud800","\u00ee1"]]`, `[["€","\u00ee1"]]`, `[["~","\u00ee€"]]`}
+		m["escape_chars"] = json.RawMessage(shapes[tp.Draw("h.escshape", len(shapes))])
+		js, err := json.Marshal(m)
+		if err == nil {
+			return js
+		}
+	}
 	switch tp.Draw("h.json", 6) {
 	case 0: // truncated JSON
 		if len(raw) > 2 {
@@ -389,6 +399,21 @@ func vScenarioC12(rc *runCtx) {
 	}
 	tp := rc.tape
 	cfg, o, _ := vSmallXfer(rc, []int{2, 5})
+	// campaign: a server that first announces an enormous buffer size (what the receiver's own chunk-size bound
+	// is derived from) and then sends data chunks with enormous length fields
+	hugeBuf := rc.param("relayhs", "") != "1" && tp.Bool("c12.hugebuf", 120)
+	if hugeBuf {
+		cfg.upload = false
+		cfg.binary = true
+		cfg.relays = 0
+		o2 := cfg.opts()
+		o2.srcPaths, o2.dstDir, o2.kHash, o2.profile, o2.simCap = o.srcPaths, o.dstDir, o.kHash, o.profile, o.simCap
+		o = o2
+	}
+	relayhs := rc.param("relayhs", "") == "1"
+	if o.relays == 0 && (relayhs || tp.Bool("c12.addrelay", 250)) {
+		cfg.relays, o.relays = 1, 1
+	}
 	// the progress display is part of the attack surface
 	if tp.Bool("c12.progress", 600) {
 		cfg.quiet = false
@@ -402,13 +427,54 @@ func vScenarioC12(rc *runCtx) {
 	if dir == 1 {
 		l = x.down[0]
 	}
+	if hugeBuf {
+		dir, l = 1, x.down[0]
+	}
+	if !hugeBuf && o.relays > 0 && (relayhs || tp.Bool("c12.relay", 600)) {
+		// a relay reads both ends' handshake lines: hostile server output into the relay, or a hostile client
+		dir = 2 + tp.Draw("c12.relaydir", 2)
+		l = x.downLast()
+		if dir == 3 {
+			l = x.up[0]
+		}
+	}
 	pm := []int{60, 200, 500}[tp.Draw("c12.rate", 3)]
 	max := 1 + tp.Pick("c12.max", 5, 2, 1)
 	fired := 0
+	hugeAnnounced := false
 	var log []string
 	prev := l.Mangle
 	ed := vLineEdit(func(typ, payload string, nth int) (string, bool) {
-		if fired >= max || !tp.Bool("c12.fire", pm) {
+		if hugeBuf {
+			switch {
+			case typ == "CFG":
+				if raw, err := vDecode(payload); err == nil {
+					var m map[string]any
+					if json.Unmarshal(raw, &m) == nil && m != nil {
+						m["bufsize"] = json.RawMessage([]string{"2147483648", "3000000000", "1099511627776", "2305843009213693952", "4611686018427387903", "4611686018427387904", "1073741825"}[tp.Draw("c12.hugebufv", 7)])
+						js, _ := json.Marshal(m)
+						fired++
+						hugeAnnounced = true
+						rc.fault("hostile-CFG-bufsize")
+						log = append(log, "CFG bufsize -> "+string(m["bufsize"].(json.RawMessage)))
+						return vEncode(js), true
+					}
+				}
+			case typ == "DATA" && len(payload) < 20 && tp.Bool("c12.hugedata", 600):
+				np := []string{"2147483648", "4294967296", "3000000000", "1099511627776", "4611686018427387904", "2147483649", "6000000000"}[tp.Draw("c12.hugedatav", 7)]
+				fired++
+				rc.fault("hostile-DATA")
+				log = append(log, fmt.Sprintf("DATA#%d %s -> %s", nth, payload, np))
+				return np, true
+			}
+			return "", false
+		}
+		if dir >= 2 {
+			// a relay only reads the handshake lines
+			if (typ != "ACT" && typ != "CFG") || fired >= max || !tp.Bool("c12.firehs", 800) {
+				return "", false
+			}
+		} else if fired >= max || !tp.Bool("c12.fire", pm) {
 			return "", false
 		}
 		var np string
@@ -459,7 +525,7 @@ func vScenarioC12(rc *runCtx) {
 		return ed(ll, d)
 	}
 	rc.res.ClassKey = fmt.Sprintf("%s dir%d", cfg.key(), dir)
-	rc.res.Scenario["attacked"] = []string{"server", "client"}[dir]
+	rc.res.Scenario["attacked"] = []string{"server", "client", "relay (from the server side)", "relay (from the client side)"}[dir]
 	var m0 runtime.MemStats
 	runtime.ReadMemStats(&m0)
 	x.start()
@@ -478,11 +544,20 @@ func vScenarioC12(rc *runCtx) {
 	}
 	// allocation attributable to one length field
 	alloc := int64(m1.TotalAlloc - m0.TotalAlloc)
-	var moved int64
+	var moved, writes int64
 	for _, ll := range append(append([]*verifsim.Link{}, x.up...), x.down...) {
 		moved += ll.NSentTotal()
+		_, _, evs := ll.Snapshot()
+		writes += int64(len(evs))
 	}
-	budget := int64(64<<20) + 16*(moved+10<<20) + 3*int64(kPrefixHashStep)
+	// every read at every hop takes a fresh 32 KiB buffer: churn proportional to the number of messages is not
+	// "memory on the strength of a length field"
+	budget := int64(64<<20) + 16*(moved+10<<20) + 3*int64(kPrefixHashStep) + writes*(128<<10)
+	if hugeAnnounced {
+		// the protocol lets a server announce chunks of up to 1 GiB (2 GiB escaped): a receiver that reserves
+		// that much for one announced chunk stays within what was negotiated; beyond it, it does not
+		budget += 2 << 30
+	}
 	rc.res.Scenario["alloc_mb"] = alloc >> 20
 	if alloc > budget {
 		rc.violate("alloc", "C12:alloc:"+vEditSig(log), "the run allocated %d MiB although only %d KiB crossed the links (budget %d MiB); hostile edits: %v", alloc>>20, moved>>10, budget>>20, log)
